@@ -14,6 +14,14 @@
 (*          (no registration on the phantom, or no transport left)         *)
 (*   sleep  transport error: no more reads, return at the deadline         *)
 (*   found  clear deadline, MarkActive, Proxy                              *)
+(* The deadline is RANDOMISED: drawn from a generator whose state no       *)
+(* outsider knows.  Registrations are outsiders' input: a legacy (v0/v1)  *)
+(* registration makes the station run the legacy phantom selection, which  *)
+(* seeds a generator with a value the registrant chose (LegacySelect).     *)
+(* DeadlineSource = "private": that generator is the selection's own (the  *)
+(* code); "shared": it is the process-wide one the handler draws its       *)
+(* deadline from - the next deadline is then known to the registrant (a    *)
+(* broken instance: must violate DeadlineUnpredictable).                   *)
 (* The registration table is shared with the expiry sweeper: between the   *)
 (* transport's lookup (the matching verdict) and MarkActive the sweeper    *)
 (* may remove the registration (SweepRemoves).  MarkActive then finds no   *)
@@ -45,7 +53,8 @@ CONSTANTS MinTag,      \* 32  : length of the min transport's tag
           MaxRead,     \* 4096: read buffer of the handler
           MaxW,        \* bound on the number of modelled writes (bounding only)
           Cases,       \* set of case records explored by TLC
-          MarkMode     \* "release" | "leak-on-missing"
+          MarkMode,    \* "release" | "leak-on-missing"
+          DeadlineSource \* "private" | "shared"
 
 Transports == {"min", "prefix", "obfs4"}
 None == "none"
@@ -63,10 +72,12 @@ VARIABLES c,          \* the case
           returned,
           swept,      \* the sweeper removed the matched registration before it was marked
           regLock,    \* "free" | "held": the registration table's mutex between critical sections
+          seeded,     \* an outsider's registration has put the generator the deadline is drawn from into a state it knows
+          dlKnown,    \* this connection's deadline was drawn from such a state
           obs
 
-vars == <<c, phase, alive, todo, rcvd, sent, readn, written, dlSet, expired, peerClosed, matched, consumed, used, returned, swept, regLock, obs>>
-view == <<c, phase, alive, todo, rcvd, sent, readn, written, dlSet, expired, peerClosed, matched, consumed, used, returned, swept, regLock>>
+vars == <<c, phase, alive, todo, rcvd, sent, readn, written, dlSet, expired, peerClosed, matched, consumed, used, returned, swept, regLock, seeded, dlKnown, obs>>
+view == <<c, phase, alive, todo, rcvd, sent, readn, written, dlSet, expired, peerClosed, matched, consumed, used, returned, swept, regLock, seeded, dlKnown>>
 
 avail == sent - readn
 
@@ -93,27 +104,27 @@ Init == /\ c \in Cases
         /\ rcvd = 0 /\ sent = 0 /\ readn = 0 /\ written = 0
         /\ dlSet = FALSE /\ expired = FALSE /\ peerClosed = FALSE
         /\ matched = None /\ consumed = 0 /\ used = FALSE /\ returned = FALSE
-        /\ swept = FALSE /\ regLock = "free"
+        /\ swept = FALSE /\ regLock = "free" /\ seeded = FALSE /\ dlKnown = FALSE
         /\ obs = [a |-> "Init"]
 
 \* ------------------------------ the peer ------------------------------
 Send(k) == /\ ~peerClosed /\ k > 0 /\ sent + k <= c.total
            /\ sent' = sent + k
-           /\ UNCHANGED <<swept, regLock, c, phase, alive, todo, rcvd, readn, written, dlSet, expired, peerClosed, matched, consumed, used, returned>>
+           /\ UNCHANGED <<seeded, dlKnown, swept, regLock, c, phase, alive, todo, rcvd, readn, written, dlSet, expired, peerClosed, matched, consumed, used, returned>>
            /\ obs' = [a |-> "Send", k |-> k]
 PeerClose == /\ ~peerClosed /\ peerClosed' = TRUE
-             /\ UNCHANGED <<swept, regLock, c, phase, alive, todo, rcvd, sent, readn, written, dlSet, expired, matched, consumed, used, returned>>
+             /\ UNCHANGED <<seeded, dlKnown, swept, regLock, c, phase, alive, todo, rcvd, sent, readn, written, dlSet, expired, matched, consumed, used, returned>>
              /\ obs' = [a |-> "PeerClose"]
 Expire == /\ dlSet /\ ~expired /\ matched = None /\ expired' = TRUE
-          /\ UNCHANGED <<swept, regLock, c, phase, alive, todo, rcvd, sent, readn, written, dlSet, peerClosed, matched, consumed, used, returned>>
+          /\ UNCHANGED <<seeded, dlKnown, swept, regLock, c, phase, alive, todo, rcvd, sent, readn, written, dlSet, peerClosed, matched, consumed, used, returned>>
           /\ obs' = [a |-> "Expire"]
 
 \* ----------------------------- the handler -----------------------------
 HInit == /\ phase = "init"
          /\ regLock = "free"                    \* countRegistrations takes the table's read lock
-         /\ dlSet' = TRUE
+         /\ dlSet' = TRUE /\ dlKnown' = seeded
          /\ phase' = IF c.occ = 0 THEN "drain" ELSE "read"
-         /\ UNCHANGED <<swept, regLock, c, alive, todo, rcvd, sent, readn, written, expired, peerClosed, matched, consumed, used, returned>>
+         /\ UNCHANGED <<seeded, swept, regLock, c, alive, todo, rcvd, sent, readn, written, expired, peerClosed, matched, consumed, used, returned>>
          /\ obs' = [a |-> "SetDeadline"]
 
 Return(why) == /\ returned' = TRUE /\ phase' = "returned"
@@ -130,7 +141,7 @@ HRead ==
           /\ obs' = [a |-> "Read", n |-> k] /\ UNCHANGED returned
      ELSE IF peerClosed THEN Return("closed") /\ UNCHANGED <<rcvd, readn, todo>>
      ELSE /\ expired /\ Return("timeout") /\ UNCHANGED <<rcvd, readn, todo>>
-  /\ UNCHANGED <<swept, regLock, c, alive, sent, written, dlSet, expired, peerClosed, matched, consumed, used>>
+  /\ UNCHANGED <<seeded, dlKnown, swept, regLock, c, alive, sent, written, dlSet, expired, peerClosed, matched, consumed, used>>
 
 HOffer(t) ==
   /\ phase = "offer" /\ t \in todo
@@ -142,17 +153,17 @@ HOffer(t) ==
                             /\ phase' = IF todo' = {} THEN "read" ELSE "offer"
           [] v = "error" -> /\ phase' = "sleep" /\ todo' = {} /\ UNCHANGED <<alive, matched, consumed>>
           [] v = "match" -> /\ phase' = "found" /\ todo' = {} /\ matched' = t /\ consumed' = c.H /\ UNCHANGED alive
-  /\ UNCHANGED <<swept, regLock, c, rcvd, sent, readn, written, dlSet, expired, peerClosed, used, returned>>
+  /\ UNCHANGED <<seeded, dlKnown, swept, regLock, c, rcvd, sent, readn, written, dlSet, expired, peerClosed, used, returned>>
 
 HDrain ==
   /\ phase = "drain"
   /\ IF avail > 0 THEN \E k \in 1..avail : /\ readn' = readn + k /\ obs' = [a |-> "Read", n |-> k] /\ UNCHANGED <<returned, phase>>
      ELSE IF peerClosed THEN Return("closed") /\ UNCHANGED readn
      ELSE /\ expired /\ Return("timeout") /\ UNCHANGED readn
-  /\ UNCHANGED <<swept, regLock, c, alive, todo, rcvd, sent, written, dlSet, expired, peerClosed, matched, consumed, used>>
+  /\ UNCHANGED <<seeded, dlKnown, swept, regLock, c, alive, todo, rcvd, sent, written, dlSet, expired, peerClosed, matched, consumed, used>>
 
 HSleep == /\ phase = "sleep" /\ expired /\ Return("slept")
-          /\ UNCHANGED <<swept, regLock, c, alive, todo, rcvd, sent, readn, written, dlSet, expired, peerClosed, matched, consumed, used>>
+          /\ UNCHANGED <<seeded, dlKnown, swept, regLock, c, alive, todo, rcvd, sent, readn, written, dlSet, expired, peerClosed, matched, consumed, used>>
 
 \* found: the deadline is cleared, the registration marked used, the relay takes over (the bytes after the
 \* handshake that are already in the buffer are replayed in front of the live connection)
@@ -160,12 +171,12 @@ HFound == /\ phase = "found"
           /\ regLock = "free"                   \* markActive takes the table's write lock ...
           /\ dlSet' = FALSE /\ used' = ~swept /\ phase' = "relay"
           /\ regLock' = IF swept /\ MarkMode = "leak-on-missing" THEN "held" ELSE "free"   \* ... and releases it on every path
-          /\ UNCHANGED <<swept, c, alive, todo, rcvd, sent, readn, written, expired, peerClosed, matched, consumed, returned>>
+          /\ UNCHANGED <<seeded, dlKnown, swept, c, alive, todo, rcvd, sent, readn, written, expired, peerClosed, matched, consumed, returned>>
           /\ obs' = [a |-> "Found", t |-> matched]
 \* the expiry sweeper (another goroutine) removes the matched registration between the lookup and MarkActive
 SweepRemoves == /\ phase = "found" /\ ~swept /\ regLock = "free"
                 /\ swept' = TRUE
-                /\ UNCHANGED <<regLock, c, phase, alive, todo, rcvd, sent, readn, written, dlSet, expired, peerClosed, matched, consumed, used, returned>>
+                /\ UNCHANGED <<seeded, dlKnown, regLock, c, phase, alive, todo, rcvd, sent, readn, written, dlSet, expired, peerClosed, matched, consumed, used, returned>>
                 /\ obs' = [a |-> "Swept"]
 \* after authentication the station may write (obfs4 server handshake, covert replies)
 \* (obfs4 writes its server handshake inside WrapConnection, i.e. while the matching verdict is being produced)
@@ -173,17 +184,22 @@ HWrite == /\ \/ phase \in {"found", "relay"}
              \/ (phase = "offer" /\ \E t \in todo : Verdict(t, rcvd) = "match")
           /\ written < MaxW
           /\ written' = written + 1
-          /\ UNCHANGED <<swept, regLock, c, phase, alive, todo, rcvd, sent, readn, dlSet, expired, peerClosed, matched, consumed, used, returned>>
+          /\ UNCHANGED <<seeded, dlKnown, swept, regLock, c, phase, alive, todo, rcvd, sent, readn, dlSet, expired, peerClosed, matched, consumed, used, returned>>
           /\ obs' = [a |-> "Write"]
 HRelayRead == /\ phase = "relay" /\ avail > 0
               /\ \E k \in 1..avail : readn' = readn + k /\ obs' = [a |-> "Read", n |-> k]
-              /\ UNCHANGED <<swept, regLock, c, phase, alive, todo, rcvd, sent, written, dlSet, expired, peerClosed, matched, consumed, used, returned>>
+              /\ UNCHANGED <<seeded, dlKnown, swept, regLock, c, phase, alive, todo, rcvd, sent, written, dlSet, expired, peerClosed, matched, consumed, used, returned>>
 \* the relay ends when either side ends (Relay.tla has the details); the handler then returns
 HRelayReturn == /\ phase = "relay" /\ Return("relayed")
-                /\ UNCHANGED <<swept, regLock, c, alive, todo, rcvd, sent, readn, written, dlSet, expired, peerClosed, matched, consumed, used>>
+                /\ UNCHANGED <<seeded, dlKnown, swept, regLock, c, alive, todo, rcvd, sent, readn, written, dlSet, expired, peerClosed, matched, consumed, used>>
 
 Handler == HInit \/ HRead \/ (\E t \in Transports : HOffer(t)) \/ HDrain \/ HSleep \/ HFound \/ HWrite \/ HRelayRead \/ HRelayReturn
-Peer == (\E k \in 1..3 : Send(k)) \/ PeerClose \/ Expire \/ SweepRemoves
+\* an outsider registers as a legacy client just before it connects
+LegacySelect == /\ phase = "init" /\ ~seeded
+                /\ seeded' = (DeadlineSource = "shared")
+                /\ UNCHANGED <<dlKnown, swept, regLock, c, phase, alive, todo, rcvd, sent, readn, written, dlSet, expired, peerClosed, matched, consumed, used, returned>>
+                /\ obs' = [a |-> "LegacyReg"]
+Peer == (\E k \in 1..3 : Send(k)) \/ PeerClose \/ Expire \/ SweepRemoves \/ LegacySelect
 Next == Handler \/ Peer
 Spec == Init /\ [][Next]_vars /\ WF_vars(Handler) /\ WF_vars(Expire)
 
@@ -205,6 +221,8 @@ FoundWhenComplete == (c.ok /\ phase = "read" /\ c.t \in alive) =>
                         (IF c.t = "obfs4" THEN rcvd # c.H ELSE rcvd < c.H)
 NeverDropsMatching == (c.ok /\ matched = None /\ phase \in {"read", "offer"} /\ rcvd <= c.H) => c.t \in alive
 MarkedUsed == phase = "relay" => (used \/ swept)
+\* C03: the classification deadline is drawn from a state no registrant has set
+DeadlineUnpredictable == ~dlKnown
 \* C04: the registration table stays usable for the next connection, whatever this one met
 RegistryFree == regLock = "free"
 \* liveness: a complete valid flight is eventually recognised; every connection eventually ends or is relayed
